@@ -26,7 +26,7 @@ func Sets(thorough bool) (props, items *gen.Set, objs, arrs []drive.Inst) {
 func Run(r *ev.Run) {
 	thorough := r.Tier == "thorough"
 	props, items, objs, arrs := Sets(thorough)
-	r.Rule("G-uneval: combinator trees (allOf/anyOf/oneOf/not/if-then-else subsets/dependentSchemas/$ref/$dynamicRef, depth<=2, thorough 3) over evaluating leaves, next to unevaluatedProperties / unevaluatedItems in {false,{type:integer},true}, plus cousin placements; " +
+	r.Rule("G-uneval: combinator trees (allOf/anyOf/oneOf/not/if-then-else subsets/dependentSchemas/$ref/$dynamicRef, depth<=2, thorough 3) over evaluating leaves, next to unevaluatedProperties / unevaluatedItems in {false,{type:integer},true}, plus cousin placements; each also (quick: every 3rd) as a Loader document referred to by a root without unevaluated* keywords; " +
 		"x every object over keys {a,b,c} with values {1,\"x\"} (+3 nested) / every array of length<=3 over {1,\"x\"} (+2); each (schema, instance) pair is compared with R1's annotation semantics; non-trivial = R1 evaluated a keyword applicable to the instance type")
 	r.Assume("R1's annotation semantics follow core §7.7.1/§11 (validated on unevaluatedProperties.json, unevaluatedItems.json and the rest of the official suite at start-up)")
 	if n, bad, err := ref.CheckSuite("/repo"); err != nil || len(bad) > 0 {
@@ -49,6 +49,31 @@ func Run(r *ev.Run) {
 			r.Sample(map[string]any{"schema": props.List[i], "instances": "all objects over {a,b,c}x{1,\"x\"}"})
 		}
 	})
+	// the same schemas as a loaded document: the root only refers to it and contains no
+	// unevaluated* keyword itself, so anything the implementation decides per document is exercised
+	stride := 3
+	if thorough {
+		stride = 1
+	}
+	remote := func(list []string, pool []drive.Inst, kind string) {
+		n := 0
+		par.For(len(list), r.Expired, func(i int, j par.Journal) {
+			if i%stride != 0 {
+				return
+			}
+			root := `{"$ref":"http://h/u.json"}`
+			if (i/stride)%2 == 1 {
+				root = `{"anyOf":[{"$ref":"u.json#"},false]}`
+			}
+			drive.Against(r, j, root, pool, drive.Opt{Draft: ref.D2020, BaseURI: "http://h/root.json", Docs: map[string]string{"http://h/u.json": list[i]}, DocsKey: list[i], Prefix: "remote "})
+		})
+		for i := 0; i < len(list); i += stride {
+			n++
+		}
+		r.Set("remote_"+kind+"_schemas", n)
+	}
+	remote(props.List, objs, "object")
+	remote(items.List, arrs, "array")
 	par.For(len(items.List), r.Expired, func(i int, j par.Journal) {
 		drive.Against(r, j, items.List[i], arrs, drive.Opt{Draft: ref.D2020})
 		if i%1999 == 0 {
